@@ -691,7 +691,127 @@ fn cold_start(tier: Tier, ctx: &mut Ctx) -> Result<(), crate::runner::Violation>
     Ok(())
 }
 
+/// A searcher that has served a lot of traffic: an overlapping search is
+/// started (a few steps), then the searcher and a clone serve several MiB of
+/// ordinary searches (anything adaptive - lazily built automata, prefilters
+/// that retire themselves, caches - changes state here), then the SAME
+/// `OverlappingState` is stepped to the end. The whole sequence must be the
+/// model's, and find / earliest / iterator results must be the same before
+/// and after the traffic.
+fn long_lived(tier: Tier, ctx: &mut Ctx) -> Result<(), crate::runner::Violation> {
+    use crate::case::{Cfg, Sk};
+    use aho_corasick::automaton::OverlappingState;
+    let traffic_mib = if tier == Tier::Thorough { 12 } else { 3 };
+    let lists: [Vec<Vec<u8>>; 2] = [
+        [&b"abcd"[..], b"bcd", b"cd", b"d", b"ab", b"bca", b"zq", b"Qx", b"k~", b"%%"].iter().map(|p| p.to_vec()).collect(),
+        [&b"needle"[..], b"need", b"eedle", b"dle", b"e", b"xyzzy", b"Jq", b"~#", b"@k", b"0Z"].iter().map(|p| p.to_vec()).collect(),
+    ];
+    let mut rounds = 0u64;
+    for (li, patterns) in lists.iter().enumerate() {
+        // probe haystack: many overlapping occurrences
+        let mut probe = Vec::new();
+        for k in 0..14usize {
+            probe.extend_from_slice(&patterns[k % 3]);
+            probe.extend_from_slice(&patterns[0][..1 + k % 3]);
+            probe.push(b' ');
+        }
+        // traffic haystack: 64 KiB with sparse matches and many near misses
+        let mut traffic = Vec::with_capacity(70_000);
+        while traffic.len() < 65_536 {
+            traffic.extend_from_slice(b"lorem ipsum dolor sit amet ");
+            traffic.extend_from_slice(&patterns[0][..patterns[0].len() - 1]);
+            traffic.extend_from_slice(b" consectetur ");
+            if traffic.len() % 7 == 0 {
+                traffic.extend_from_slice(&patterns[1]);
+            }
+        }
+        for mk in Mk::ALL {
+            let occ = Occ::new(patterns, &probe, false);
+            for engine in [Engine::TopAuto, Engine::TopNc, Engine::TopC, Engine::TopDfa] {
+                for prefilter in [true, false] {
+                    let cfg = Cfg { engine, mk, sk: Sk::Unanchored, prefilter, dense_depth: 2, byte_classes: true, casei: false };
+                    let case = Case { prop: "C17".into(), sub: "scenario:long-lived".into(), cfg: cfg.clone(), patterns: patterns.clone(), haystack: probe.clone(), span: (0, probe.len()), note: format!("{} MiB of ordinary searches between the steps of one overlapping search / the items of one iterator", traffic_mib), ..Case::default() };
+                    let fail = |reason: String| crate::runner::Violation { case: case.clone(), reason };
+                    let s = Searcher::build(&cfg, patterns).map_err(|e| fail(e))?;
+                    let s2 = clone_searcher(&s);
+                    let inp = || input(&probe, (0, probe.len()), false, false);
+                    let before = guard(|| (s.try_find(inp()), s.try_find(input(&probe, (0, probe.len()), false, true)), s.try_find_iter(inp())));
+                    // start an overlapping search (standard kind only) and leave it in flight
+                    let want_ov = occ.overlapping(0, probe.len(), false);
+                    let mut st = OverlappingState::start();
+                    let mut got_ov = Vec::new();
+                    if mk == Mk::Standard {
+                        for _ in 0..3 {
+                            let r = guard(|| s.try_find_overlapping(inp(), &mut st));
+                            if !matches!(r, Ok(Ok(()))) {
+                                return Err(fail(format!("overlapping step failed: {:?}", r.map(|x| x.map_err(|e| e.to_string())))));
+                            }
+                            if let Some(m) = st.get_match() {
+                                got_ov.push(to_m(m));
+                            }
+                        }
+                    }
+                    // traffic on the searcher and on its clone
+                    let mut total = 0usize;
+                    let mut k = 0usize;
+                    while total < traffic_mib << 20 {
+                        let who = if k % 2 == 0 { &s } else { &s2 };
+                        let start = (k * 37) % 4096;
+                        let r = guard(|| who.try_find(input(&traffic, (start, traffic.len()), false, false)));
+                        if !matches!(r, Ok(Ok(_))) {
+                            return Err(fail(format!("traffic search failed: {:?}", r.map(|x| x.map_err(|e| e.to_string())))));
+                        }
+                        // most traffic haystacks end in a match-free stretch so that the whole span is scanned
+                        let r = guard(|| who.try_find(input(&traffic[..60_000], (start, 60_000), false, false)));
+                        let _ = r;
+                        total += 2 * 60_000;
+                        k += 1;
+                    }
+                    // finish the in-flight overlapping search
+                    if mk == Mk::Standard {
+                        for _ in 0..(want_ov.len() + 3) {
+                            let r = guard(|| s.try_find_overlapping(inp(), &mut st));
+                            if !matches!(r, Ok(Ok(()))) {
+                                return Err(fail(format!("overlapping step after {} MiB of traffic failed: {:?}", traffic_mib, r.map(|x| x.map_err(|e| e.to_string())))));
+                            }
+                            match st.get_match() {
+                                Some(m) => got_ov.push(to_m(m)),
+                                None => break,
+                            }
+                        }
+                        if got_ov != want_ov {
+                            let k = got_ov.iter().zip(&want_ov).take_while(|(a, b)| a == b).count();
+                            return Err(fail(format!("an overlapping search stepped 3 times before and to the end after {} MiB of other searches differs from the model at index {}: expected {:?}, got {:?} ({} vs {} matches)", traffic_mib, k, want_ov.get(k), got_ov.get(k), want_ov.len(), got_ov.len())));
+                        }
+                    }
+                    let after = guard(|| (s.try_find(inp()), s.try_find(input(&probe, (0, probe.len()), false, true)), s.try_find_iter(inp())));
+                    let (b, a) = match (before, after) {
+                        (Ok(b), Ok(a)) => (b, a),
+                        (b, a) => return Err(fail(format!("probe searches panicked: before {:?} / after {:?}", b.is_ok(), a.is_ok()))),
+                    };
+                    let fmt = |x: &(Result<Option<crate::model::M>, aho_corasick::MatchError>, Result<Option<crate::model::M>, aho_corasick::MatchError>, Result<Vec<crate::model::M>, aho_corasick::MatchError>)| format!("find {:?}, earliest {:?}, iter {:?}", x.0.as_ref().map_err(|e| e.to_string()), x.1.as_ref().map_err(|e| e.to_string()), x.2.as_ref().map(|v| v.len()).map_err(|e| e.to_string()));
+                    let same = format!("{:?}", (b.0.as_ref().ok(), b.1.as_ref().ok(), b.2.as_ref().ok())) == format!("{:?}", (a.0.as_ref().ok(), a.1.as_ref().ok(), a.2.as_ref().ok()));
+                    if !same {
+                        return Err(fail(format!("results on the same input changed after {} MiB of other searches: before [{}], after [{}]", traffic_mib, fmt(&b), fmt(&a))));
+                    }
+                    let want_find = occ.find(mk, 0, probe.len(), false);
+                    let want_iter = occ.iter(mk, 0, probe.len(), false);
+                    if !matches!(&a.0, Ok(m) if *m == want_find) || !matches!(&a.2, Ok(v) if *v == want_iter) {
+                        return Err(fail(format!("results after {} MiB of traffic differ from the model: [{}], model find {:?}, iter {} matches", traffic_mib, fmt(&a), want_find, want_iter.len())));
+                    }
+                    rounds += 1;
+                    let _ = li;
+                }
+            }
+        }
+    }
+    ctx.count("long_lived_rounds", rounds);
+    ctx.class("scenario:long-lived(MiB of traffic between the steps of one search)");
+    Ok(())
+}
+
 fn c17_extra(tier: Tier, _seed: u64, ctx: &mut Ctx) -> Result<bool, crate::runner::Violation> {
+    long_lived(tier, ctx)?;
     stream_history(tier, ctx)?;
     cold_start(tier, ctx)?;
     hammer(tier, ctx)?;
